@@ -1,10 +1,10 @@
 package rules
 
 import (
-	"os"
 	"fmt"
 	"go/token"
 	"go/types"
+	"os"
 	"sort"
 	"strings"
 
@@ -279,7 +279,7 @@ func runC04(c *engine.Ctx) {
 			}
 		}
 	}
-	c.Floor(sites, 8)
+	c.Floor(sites, 4)
 
 	c.Rule("R2c", "ClientSpec.AlwaysAuthPass is only ever set inside pkg/ssh, from the gateway's own client-authentication flag (never a constant, never from a peer message)")
 	stores := 0
